@@ -138,6 +138,7 @@ class Sub:
         # the client keeps subscribers in sets: the order in which they are called is the
         # set's iteration order, i.e. a function of the hashes. A workload can choose it.
         self._hashv = hashv
+        self.action = None   # callable run inside the callback (e.g. unsubscribe itself)
 
     def __hash__(self):
         return object.__hash__(self) if self._hashv is None else self._hashv
@@ -148,6 +149,9 @@ class Sub:
     async def __call__(self, *a, **kw):
         self.calls.append((a, kw))
         self.log.add("SUB.call", name=self.name, args=a, kwargs=kw)
+        if self.action is not None:
+            act, self.action = self.action, None
+            act()
         if self.raises:
             raise RuntimeError(f"subscriber {self.name} fails")
 
